@@ -516,6 +516,16 @@ inline void TotalOrderSort(py::list& list) {  // NOLINT[runtime/references]
 
 inline Py_ALWAYS_INLINE py::list DictKeys(const py::dict& dict) {
     const scoped_critical_section cs{dict};
+    if (!PyDict_CheckExact(dict.ptr())) [[unlikely]] {
+        // `PyDict_Keys()` returns the keys in the internal storage order of the underlying dict.
+        // Subclasses (e.g., `collections.OrderedDict` after `move_to_end()`) may iterate in a
+        // different order. Use the iteration order of the object itself.
+        PyObject* const keys = PySequence_List(dict.ptr());
+        if (keys == nullptr) [[unlikely]] {
+            throw py::error_already_set();
+        }
+        return py::reinterpret_steal<py::list>(keys);
+    }
     return py::reinterpret_steal<py::list>(PyDict_Keys(dict.ptr()));
 }
 
